@@ -248,9 +248,56 @@ func retypeProgram(r *Rng) []byte {
 	return []byte(sb.String())
 }
 
+// unionProgram: values whose type is a union (either branch of a ternary, nil or something,
+// an unknown or a hash, a user object or an array) and the things programs do with them: call
+// a method only some members have, safe navigation, splats into literals, lookups afterwards.
+func unionProgram(r *Rng) []byte {
+	var sb strings.Builder
+	sb.WriteString("class Table\n  def values\n    [1]\n  end\n  def keys\n    [:a]\n  end\n  def first\n    1\n  end\nend\n")
+	members := []string{"nil", "{a: 1}", "{}", "[1, 2]", "[\"a\", \"b\"]", "\"s\"", "1", "1.5", ":s", "opts[0]", "cfg[:k]", "Table.new", "unknown_call", "(1..3)", "true"}
+	methods := []string{"values", "keys", "merge({b: 2})", "first", "size", "to_s", "upcase", "each { |e| p e }", "map { |e| e }", "foo", "abs", "[0]", "[:a]", "fetch(:a)", "push(1)", "+ 1", "nil?", "length", "dup"}
+	n := r.Range(1, 4)
+	for k := 0; k < n; k++ {
+		a, b := r.Pick(members), r.Pick(members)
+		switch r.Intn(4) {
+		case 0:
+			fmt.Fprintf(&sb, "u%d = flag%d ? %s : %s\n", k, k, a, b)
+		case 1:
+			fmt.Fprintf(&sb, "u%d = %s\nu%d = %s if cond%d\n", k, a, k, b, k)
+		case 2:
+			fmt.Fprintf(&sb, "u%d = if c%d\n  %s\nelse\n  %s\nend\n", k, k, a, b)
+		default:
+			fmt.Fprintf(&sb, "u%d = %s || %s\n", k, a, b)
+		}
+		for j := 0; j < r.Range(1, 4); j++ {
+			u := fmt.Sprintf("u%d", r.Intn(k+1))
+			switch r.Intn(8) {
+			case 0, 1:
+				fmt.Fprintf(&sb, "r%d%d = %s.%s\n", k, j, u, strings.TrimPrefix(r.Pick(methods), "+ "))
+			case 2:
+				fmt.Fprintf(&sb, "%s&.%s\n", u, strings.TrimPrefix(r.Pick(methods), "+ "))
+			case 3:
+				fmt.Fprintf(&sb, "h%d%d = {**%s, port: 8080}\nh%d%d[:%s]\nh%d%d.values\n", k, j, u, k, j, r.Pick([]string{"port", "zz", "a"}), k, j)
+			case 4:
+				fmt.Fprintf(&sb, "l%d%d = [*%s, 1]\nl%d%d.first.foo\n", k, j, u, k, j)
+			case 5:
+				fmt.Fprintf(&sb, "p %s %s\n", u, r.Pick([]string{"+ 1", "<< 2", "== nil", "|| 3"}))
+			case 6:
+				fmt.Fprintf(&sb, "case %s\nin {a: Integer => v}\n  p v\nin [x, *]\n  p x\nin nil\n  p 0\nend\n", u)
+			default:
+				fmt.Fprintf(&sb, "if %s.nil? && @%s.nil?\n  p 1\nelse\n  p %s + 1, @%s\nend\n", u, u, u, u)
+			}
+		}
+	}
+	return []byte(sb.String())
+}
+
 func shapedProgram(r *Rng) ([]byte, string) {
 	if r.Chance(1, 3) {
 		return retypeProgram(r), "retyping"
+	}
+	if r.Chance(1, 3) {
+		return unionProgram(r), "unions"
 	}
 	switch r.Intn(4) {
 	case 0:
@@ -516,7 +563,7 @@ func (o *tiInput) Make(c *Ctx, i int) *Case {
 		default:
 			fk = "F7-crlf"
 		}
-		if (origin == "cyclic" || origin == "hierarchy" || origin == "alias-chains" || origin == "big-literals" || origin == "retyping") && r.Chance(2, 3) {
+		if (origin == "cyclic" || origin == "hierarchy" || origin == "alias-chains" || origin == "big-literals" || origin == "retyping" || origin == "unions") && r.Chance(2, 3) {
 			fk = ""
 		}
 		if o.prop == "C02" && fk == "F1-torn" && r.Chance(1, 3) {
@@ -564,7 +611,7 @@ func (o *tiInput) Make(c *Ctx, i int) *Case {
 	}
 	shaped := false
 	switch cs.Meta["origin"] {
-	case "hierarchy", "big-literals", "alias-chains", "cyclic", "retyping":
+	case "hierarchy", "big-literals", "alias-chains", "cyclic", "retyping", "unions":
 		shaped = true
 	}
 	if i >= len(o.sweep) && (r.Chance(1, 12) || (shaped && r.Chance(1, 4))) {
